@@ -104,24 +104,26 @@ mod vharness {
         let src: [EvalResult<u8>; 5] = [Ok(b[0]), Ok(b[1]), Ok(b[2]), Ok(b[3]), Ok(b[4])];
         let enc = match (match n { 1 => encode_base64(src.into_iter().take(1)), 2 => encode_base64(src.into_iter().take(2)), 3 => encode_base64(src.into_iter().take(3)), 4 => encode_base64(src.into_iter().take(4)), _ => encode_base64(src.into_iter().take(5)) }) { Ok(s) => s, Err(_) => { assert!(false, "C20:base64:encoding-bytes-never-fails"); return; } };
         let eb = enc.as_bytes();
-        let mut chars = ['\0'; 8]; let mut i = 0; while i < eb.len() && i < 8 { chars[i] = eb[i] as char; i += 1; }
         assert!(eb.len() == 4 * ((n + 2) / 3), "C20:base64:encoded-length-is-four-per-started-group");
+        // loop-free copy (eb.len() is 4 or 8 here)
+        let at = |i: usize| -> char { if i < eb.len() { eb[i] as char } else { '\0' } };
+        let chars = [at(0), at(1), at(2), at(3), at(4), at(5), at(6), at(7)];
         match decode_base64(&chars[..eb.len()]) {
-            Ok(back) => { assert!(back.len() == n, "C20:base64:decoder-inverts-encoder"); let mut k = 0; while k < n { assert!(back[k] == b[k], "C20:base64:decoder-inverts-encoder"); k += 1; } }
+            Ok(back) => { assert!(back.len() == n && back[0] == b[0] && (n < 2 || back[1] == b[1]) && (n < 3 || back[2] == b[2]) && (n < 4 || back[3] == b[3]) && (n < 5 || back[4] == b[4]), "C20:base64:decoder-inverts-encoder"); }
             Err(_) => assert!(false, "C20:base64:decoder-accepts-what-the-encoder-emits"),
         }
     }
     //@harness props=C20 strength=bounded bound="byte strings of exactly 1 byte, every value" clause="std.base64DecodeBytes(std.base64(bytes)) == bytes" timeout=600
     #[kani::proof]
-    #[kani::unwind(10)]
+    #[kani::unwind(5)]
     fn base64_round_trip_1() { round_trip(1); }
     //@harness props=C20 strength=bounded bound="byte strings of exactly 2 bytes, every value" clause="std.base64DecodeBytes(std.base64(bytes)) == bytes" timeout=600
     #[kani::proof]
-    #[kani::unwind(10)]
+    #[kani::unwind(5)]
     fn base64_round_trip_2() { round_trip(2); }
     //@harness props=C20 strength=bounded bound="byte strings of exactly 4 bytes (two groups, the second padded), every value" clause="std.base64DecodeBytes(std.base64(bytes)) == bytes" timeout=900
     #[kani::proof]
-    #[kani::unwind(10)]
+    #[kani::unwind(5)]
     fn base64_round_trip_4() { round_trip(4); }
 
     //@harness props=C20 strength=proof expect=fail clause="canary"
